@@ -99,8 +99,8 @@ class Formula:
     def region(self, n):
         """x < 0  |  value < 1 + bound_ (positive)  |  value > -1 + bound_ (negative)  <->  'neg' branch;
         domain tests value <= bound_ / value >= bound_ / outside-interval tests are false inside the domain"""
-        t = render(n)
-        if t in ("(x < 0)",):
+        t = render(n, {k_: v_ for k_, v_ in local_inits(self.f).items() if not (is_call(strip(v_)) and strip(v_)["callee"]["name"] in ("getValue",))})
+        if t in ("(x < 0)", "(this.getValue() < 0)", "(getValue() < 0)"):
             return self.branch == "neg"
         import re as _re
         m = _re.match(r"^\(value (<|<=|>|>=) \((1|-1) \+ bound_\)\)$", t)
@@ -193,7 +193,10 @@ class Formula:
         elif k == "DeclStmt":
             for d in n["decls"]:
                 if d.get("init") is not None:
-                    self.env[d["id"]] = self.expr(d["init"])
+                    if (d.get("ty") or "") in ("bool", "const bool"):
+                        self.cenv[d["id"]] = self.cond(d["init"])      # a named test ('const bool inLogPart = (x < 0);')
+                    else:
+                        self.env[d["id"]] = self.expr(d["init"])
         elif k == "IfStmt":
             c = self.cond(self.f.nodes[n["cond"]])
             if c is None:
@@ -621,9 +624,11 @@ def _d4(chk, fb):
     if fw and mt:
         ok, path = e1.must_pass(cfg, {cfg.stmt_block(fw[0])})
         order = e1.before_in_function(cfg, mt[0], fw[0])
-        arg = render(g.args(fw[0])[0])
+        arg = render(g.args(fw[0])[0], local_inits(g))
         if ok and order and arg.startswith("functionParameters_.createSubList("):
             chk.proved("D4", g.key, "always-forwards", g.loc(fw[0]), "matchParametersValues, then function_->setParameters(%s) on every path" % arg[:60])
+        elif ok and order and "functionParameters_" in arg:
+            chk.unknown("D4", g.key, "always-forwards", g.loc(fw[0]), "forwards '%s' on every path: not compared with the sub-list of back-transformed values" % arg[:60])
         else:
             chk.refuted("D4", g.key, "always-forwards", g.loc(fw[0]), "setParameters does not forward the back-transformed values to the wrapped function on every path (an unchanged transformed point must still re-synchronise a function that was modified directly)",
                         witness={"history": "evaluate at P; change the wrapped function directly; evaluate at P again"})
